@@ -77,6 +77,21 @@ def check(run):
             sc.exp_results.append("Ok:Member:04A1B2C3D4E5F6")
             scs.append(sc)
             kinds["unwanted-reply"] = kinds.get("unwanted-reply", 0) + 1
+    # a different serial number reported OUTSIDE the handshake: configure() asks for the system information again (the same
+    # 0F A1 query); a terminal that now reports another serial is not used for any further command — the next operation
+    # reconnects and vets the connection anew
+    for serial in ("DEADBEEF", "17FD1E3", "27FD1E3C"):
+        sc = cc.Scenario(S, {"max": 2}).start(); cfg = sc.cfg
+        sc.ops.append("configure")
+        sc.exchange(S.sysinfo_req(), [S.sysinfo(serial, "00000001")])
+        sc.exp_results.append("Err:Io:NotConnected")
+        sc.ops.append("read_card")
+        sc.new_conn()
+        sc.handshake()
+        sc.exchange(S.read_card_req(cfg["rct"]), [S.status_info({0x27: 0, 0x06: {"uuid": "04a1b2c3d4e5f6"}})])
+        sc.exp_results.append("Ok:Member:04A1B2C3D4E5F6")
+        scs.append(sc)
+        kinds["serial-in-configure"] = kinds.get("serial-in-configure", 0) + 1
     cases, mo, io = run_scenarios(run, scs, "c09")
     diffs = judge(run, scs, cases, mo, io,
                   "after a failed exchange (close, garbage, NACK, silence, truncated packet) nothing more is written to that connection; the retry runs on a NEW "
